@@ -733,4 +733,145 @@ theorem minDepositBase_only_overflow (p : ServiceParams) (price : Int) (hd : val
     have h1 : ¬ (m < 0) := by omega
     simp [hd, h1] at h
 
+/-! ## token fee paths -/
+
+theorem chopTrunc_mul_precision (x : Int) : chopTrunc (x * precision) = x := by
+  unfold chopTrunc
+  exact Int.mul_tdiv_cancel x (by unfold precision; omega)
+
+/-- `calcTokenIssueFee` with a non-negative base fee below 2^128, a well-formed denomination and a
+    fee factor ≥ 1: returns a fee in `[0, base + 1]` -/
+theorem calcIssueFee_ok (p : TokenParams) (factor : Dec) (base : Int)
+    (hbase : p.issueTokenBaseFee.amount = some base) (h0 : 0 ≤ base) (hb : base < pow2_128)
+    (hd : validDenom p.issueTokenBaseFee.denom = true) (hf : precision ≤ factor.raw) :
+    ∃ fee, calcIssueFee p factor = .ok fee ∧ 0 ≤ fee ∧ fee ≤ base + 1 := by
+  have hp : (0 : Int) < precision := by unfold precision; omega
+  have hF0 : factor.raw ≠ 0 := by omega
+  have hN0 : 0 ≤ base * precision * precision * precision := by positivity
+  set X := (base * precision * precision * precision).tdiv factor.raw with hX
+  have hXe : X = (base * precision * precision * precision) / factor.raw := by
+    rw [hX, Int.tdiv_eq_ediv_of_nonneg hN0]
+  have hX0 : 0 ≤ X := by rw [hXe]; exact Int.ediv_nonneg hN0 (by omega)
+  have hXF : X * factor.raw ≤ base * precision * precision * precision := by
+    rw [hXe]; exact Int.ediv_mul_le _ hF0
+  have hXp : X * precision ≤ X * factor.raw := Int.mul_le_mul_of_nonneg_left hf hX0
+  have hXb : X ≤ base * precision * precision := by
+    have : X * precision ≤ (base * precision * precision) * precision := by omega
+    exact Int.le_of_mul_le_mul_right this hp
+  have hR0 := chopRound_nonneg X hX0
+  have hR1 := chopRound_le X hX0
+  have hRb : chopRound X ≤ base * precision + 1 := by
+    unfold precision at hXb ⊢; omega
+  have hdec : chkDec (chopRound X) = some (chopRound X) := by
+    apply chkDec_of_bound _ hR0
+    unfold precision at hRb; unfold pow2_128 at hb; unfold pow2_315; omega
+  have hquo : (Dec.ofInt base).quo factor = some ⟨chopRound X⟩ := by
+    simp [Dec.quo, Dec.ofInt, hF0, ← hX, hdec]
+  have hT := chopTrunc_nonneg (chopRound X) hR0
+  have hTb : chopTrunc (chopRound X) ≤ base + 1 := by
+    unfold precision at hRb; omega
+  have hint : chkInt (chopTrunc (chopRound X)) = some (chopTrunc (chopRound X)) := by
+    apply chkInt_of_bound _ hT.1
+    unfold pow2_128 at hb; unfold pow2_256; omega
+  by_cases hgt : precision < chopRound X
+  · refine ⟨chopTrunc (chopRound X), ?_, hT.1, hTb⟩
+    have h1 : ¬ (chopTrunc (chopRound X) < 0) := by omega
+    simp [calcIssueFee, hbase, hquo, hgt, Dec.truncateInt, hint, hd, h1]
+  · refine ⟨1, ?_, by omega, by omega⟩
+    simp [calcIssueFee, hbase, hquo, hgt, hd]
+
+theorem pow10_le (scale : Nat) (h : scale ≤ 18) :
+    (1 : Int) ≤ ((10 ^ scale : Nat) : Int) ∧ ((10 ^ scale : Nat) : Int) ≤ 1000000000000000000 := by
+  have h1 : 10 ^ scale ≤ 10 ^ 18 := Nat.pow_le_pow_right (by omega) h
+  have h2 : 1 ≤ 10 ^ scale := Nat.one_le_pow _ _ (by omega)
+  constructor
+  · exact_mod_cast h2
+  · have : ((10 ^ scale : Nat) : Int) ≤ ((10 ^ 18 : Nat) : Int) := by exact_mod_cast h1
+    simpa using this
+
+/-- `Token.ToMinCoin` of an integral amount `0 ≤ x ≤ 2^128 + 1`, scale ≤ 18: exactly `x · 10^scale` -/
+theorem toMinCoin_ok (scale : Nat) (minUnit : String) (x : Int) (hs : scale ≤ 18)
+    (hd : validDenom minUnit = true) (h0 : 0 ≤ x) (hb : x ≤ pow2_128 + 1) :
+    toMinCoin scale minUnit (Dec.ofInt x) = .ok (x * ((10 ^ scale : Nat) : Int)) ∧
+      0 ≤ x * ((10 ^ scale : Nat) : Int) ∧ x * ((10 ^ scale : Nat) : Int) < pow2_255 := by
+  obtain ⟨hS1, hS2⟩ := pow10_le scale hs
+  set S : Int := ((10 ^ scale : Nat) : Int) with hS
+  have hxS0 : 0 ≤ x * S := Int.mul_nonneg h0 (by omega)
+  have hxS1 : x * S ≤ (pow2_128 + 1) * 1000000000000000000 := by
+    calc x * S ≤ (pow2_128 + 1) * S := Int.mul_le_mul_of_nonneg_right hb (by omega)
+      _ ≤ (pow2_128 + 1) * 1000000000000000000 := Int.mul_le_mul_of_nonneg_left hS2 (by unfold pow2_128; omega)
+  have hprod : x * precision * (S * precision) = (x * S * precision) * precision := by ring
+  have hm0 : 0 ≤ x * S * precision := Int.mul_nonneg hxS0 (by unfold precision; omega)
+  have hcr : chopRound (x * precision * (S * precision)) = x * S * precision := by
+    rw [hprod, chopRound_mul_precision _ hm0]
+  have hdec : chkDec (x * S * precision) = some (x * S * precision) := by
+    apply chkDec_of_bound _ hm0
+    unfold pow2_128 at hxS1; unfold precision pow2_315; omega
+  have hmul : (Dec.ofInt x).mul (Dec.ofInt S) = some ⟨x * S * precision⟩ := by
+    simp [Dec.mul, Dec.ofInt, hcr, hdec]
+  have hint : chkInt (x * S) = some (x * S) := by
+    apply chkInt_of_bound _ hxS0
+    unfold pow2_128 at hxS1; unfold pow2_256; omega
+  have h1 : ¬ (x * S < 0) := by omega
+  refine ⟨?_, hxS0, ?_⟩
+  · simp [toMinCoin, ← hS, hmul, Dec.truncateInt, chopTrunc_mul_precision, hint, hd, h1]
+  · unfold pow2_128 at hxS1; unfold pow2_255; omega
+
+/-- registry entries obey the module's own bounds: scale ≤ 18 (`MaximumScale`), valid min unit -/
+def RegOk (reg : TokenReg) : Prop := ∀ e ∈ reg, e.2.1 ≤ 18 ∧ validDenom e.2.2 = true
+
+theorem regLookup_ok {reg : TokenReg} (h : RegOk reg) {sym : String} {scale : Nat} {mu : String}
+    (hl : regLookup reg sym = some (scale, mu)) : scale ≤ 18 ∧ validDenom mu = true := by
+  unfold regLookup at hl
+  cases hf : reg.find? (fun e => e.1 = sym) with
+  | none => simp [hf] at hl
+  | some e =>
+    simp [hf] at hl
+    have hm := List.mem_of_find?_eq_some hf
+    have := h e hm
+    rw [hl] at this
+    exact this
+
+theorem issueFeePath_noabort (p : TokenParams) (reg : TokenReg) (factor : Dec) (base : Int) (rate : Dec)
+    (hbase : p.issueTokenBaseFee.amount = some base) (h0 : 0 ≤ base) (hb : base < pow2_128)
+    (hd : validDenom p.issueTokenBaseFee.denom = true) (hf : precision ≤ factor.raw)
+    (hrate : p.tokenTaxRate = some rate) (hr0 : 0 ≤ rate.raw) (hr1 : rate.raw ≤ precision)
+    (hreg : RegOk reg) :
+    ∀ k, issueFeePath p reg factor ≠ .error (.panic k) := by
+  obtain ⟨fee, hfee, hfee0, hfee1⟩ := calcIssueFee_ok p factor base hbase h0 hb hd hf
+  intro k
+  simp only [issueFeePath, hfee]
+  cases hl : regLookup reg p.issueTokenBaseFee.denom with
+  | none => simp
+  | some e =>
+    obtain ⟨scale, mu⟩ := e
+    obtain ⟨hs, hmu⟩ := regLookup_ok hreg hl
+    obtain ⟨htm, hm0, hm1⟩ := toMinCoin_ok scale mu fee hs hmu hfee0 (by omega)
+    obtain ⟨tax, burned, hsplit, _⟩ := feeSplit_ok mu _ rate hmu hm0 hm1 hr0 hr1
+    simp only [htm, hrate, hsplit]
+    simp
+
+theorem mintFeePath_noabort (p : TokenParams) (reg : TokenReg) (factor : Dec) (base : Int) (rate ratio : Dec)
+    (hbase : p.issueTokenBaseFee.amount = some base) (h0 : 0 ≤ base) (hb : base < pow2_128)
+    (hd : validDenom p.issueTokenBaseFee.denom = true) (hf : precision ≤ factor.raw)
+    (hrate : p.tokenTaxRate = some rate) (hr0 : 0 ≤ rate.raw) (hr1 : rate.raw ≤ precision)
+    (hratio : p.mintTokenFeeRatio = some ratio) (hq0 : 0 ≤ ratio.raw) (hq1 : ratio.raw ≤ precision)
+    (hreg : RegOk reg) :
+    ∀ k, mintFeePath p reg factor ≠ .error (.panic k) := by
+  obtain ⟨fee, hfee, hfee0, hfee1⟩ := calcIssueFee_ok p factor base hbase h0 hb hd hf
+  intro k
+  simp only [mintFeePath, hfee]
+  cases hl : regLookup reg p.issueTokenBaseFee.denom with
+  | none => simp
+  | some e =>
+    obtain ⟨scale, mu⟩ := e
+    obtain ⟨hs, hmu⟩ := regLookup_ok hreg hl
+    have hfb : fee < pow2_255 := by unfold pow2_128 at hb; unfold pow2_255; omega
+    obtain ⟨t, ht, mf, hmf, hmf0, hmf1⟩ := mulRateTrunc fee ratio hfee0 hfb hq0 hq1
+    obtain ⟨htm, hm0, hm1⟩ := toMinCoin_ok scale mu mf hs hmu hmf0 (by omega)
+    obtain ⟨tax, burned, hsplit, _⟩ := feeSplit_ok mu _ rate hmu hm0 hm1 hr0 hr1
+    have h1 : ¬ (mf < 0) := by omega
+    simp only [hratio, ht, hmf, h1, if_false, htm, hrate, hsplit]
+    simp
+
 end Irismod.Params
